@@ -372,6 +372,16 @@ def pool_request(rng, tier):
             for o_ in list(live):   # every other slot must be unaffected
                 if rng.random() < 0.8:
                     q(o_)
+        elif c < 0.68 and L:
+            # another curve in the SAME storage, its first Interpolate in the same interval index as the old object's last one
+            s_ = rng.choice(L)
+            told, tnew = live[s_], rng.randrange(len(tabs))
+            nmin = min(len(tabs[told][0]), len(tabs[tnew][0]))
+            j = rng.randint(0, nmin - 2)
+            xo = point(rng, tabs[told][0], j, "in"); xn = point(rng, tabs[tnew][0], j, rng.choice(["in", "mid", "knot"]))
+            ops.append("R %d %d %d %s %s" % (rng.randint(0, 1), s_, tnew, hx(xo), hx(xn))); live[s_] = tnew
+            if rng.random() < 0.7:
+                q(s_)
         elif c < 0.72 and len(L) >= 2:
             s_ = rng.choice(L)
             ops.append("X %d" % s_); del live[s_]
@@ -618,6 +628,10 @@ def parse_pool(a):
             slot[int(a[pos + 2])] = slot.get(int(a[pos + 1])); pos += 3; ops.append(None); tables.append(None)
         elif t == "X":
             slot.pop(int(a[pos + 1]), None); pos += 2; ops.append(None); tables.append(None)
+        elif t == "R":   # R mode slot table xold xnew: answered like Interpolate(xnew) on the new table
+            s_, tt = int(a[pos + 2]), int(a[pos + 3])
+            slot[s_] = tt
+            ops.append(["I", a[pos + 5]]); tables.append(tabs[tt]); pos += 6
         else:
             s_ = int(a[pos + 1]); q = a[pos + 2]
             ops.append(a[pos + 2:pos + 3 + ARITY[q]]); tables.append(tabs[slot[s_]] if slot.get(s_) is not None else None)
